@@ -1,7 +1,7 @@
 (* C04 -- property theorems only.  Each is closed by [exact] of a lemma from Closed.v / ProofsQ.v. *)
 From Coq Require Import List Arith Bool Ring ZArith QArith Qcanon.
 Import ListNotations.
-Require Import NV.C03.Model NV.C03.ModelQ NV.C04.Model NV.C04.ModelQ NV.C04.Proofs NV.C04.ProofsE NV.C04.ProofsM
+Require Import NV.C03.Model NV.C03.ModelQ NV.C04.Model NV.C04.ModelQ NV.C04.Proofs NV.C04.ProofsE NV.C04.ProofsM NV.C04.ProofsM2
                NV.C04.Closed NV.C04.ProofsQ.
 
 (* Operators: the specialised operator, evaluated at any point that carries the constants on the constant keys,
@@ -131,10 +131,11 @@ Theorem C04_energy_domain :
          List.filter (fun k : nat => negb (cs k)) (ekeys A P h).
 Proof. exact c_energy_domain. Qed.
 
-(* PARTIAL (Gaussian likelihood chains c_1*...*c_k*(GaussianEnergy @ op) only): the metric of the specialised energy
-   is the variable-key block of the original metric, and it is present iff the original's is.  Not proved here:
-   sums (InsertionOperator sandwich), StandardHamiltonian, variable-covariance Gaussian with use_full_fisher=True
-   (those are covered by the exact correspondence and the direct oracle); REFUTED for use_full_fisher=False. *)
+(* PARTIAL only with respect to the variable-covariance Gaussian.  For every energy built from Gaussian likelihood
+   chains, scalings, likelihood sums (specialised through the InsertionOperator fall-back), StandardHamiltonian,
+   constants and insertions ([mfam]): the metric of the specialised energy is the variable-key block of the original
+   metric, and it is present iff the original's is.  Not proved: VariableCovarianceGaussianEnergy with
+   use_full_fisher=True (covered by the exact correspondence and the direct oracle); REFUTED for use_full_fisher=False. *)
 Theorem C04_metric_partial :
   forall (A : Type) (a0 a1 ahalf : A) (aadd amul asub : A -> A -> A)
            (aopp : A -> A) (anonneg : A -> bool) (apowm2 : A -> A),
@@ -144,7 +145,7 @@ Theorem C04_metric_partial :
          (forall (p : P) (x : A), pf (ptab p) x = phf (ptab p) x) ->
          forall (K : nat) (cs : nat -> bool) (rc r : env A) (h : cen A P),
          Proofs.agree A cs rc r ->
-         gchain A P h = true ->
+         mfam A P h = true ->
          cshape A P dims K h = true ->
          (forall (d : env A) (k j : nat),
           k < K ->
@@ -192,3 +193,8 @@ Example C04_hyps_satisfiable :
   gchain Qc qname w_g = true /\ ham_free Qc qname w_g = true /\ qcshape [1; 1] 2 w_g = true /\
   anyc w_cs (qekeys w_g) = true /\ allc w_cs (qekeys w_g) = false /\ agree Qc w_cs w_r2 w_r2.
 Proof. exact hyps_satisfiable. Qed.
+
+Example C04_family_satisfiable :
+  mfam Qc qname w_fam = true /\ qcshape [1; 1] 2 w_fam = true /\
+  anyc w_cs (qekeys w_fam) = true /\ allc w_cs (qekeys w_fam) = false.
+Proof. exact fam_satisfiable. Qed.
